@@ -14,7 +14,7 @@ for i in ids:
     # sub-lines precede the VIOLATION property= line of their property
     pend = []
     for line in txt.split('\n'):
-        m = re.match(r'^\s+(VIOLATION|UNDECIDED) (\S+) (.*?) at (\S+:\d+)', line)
+        m = re.match(r'^\s+(VIOLATION|UNDECIDED) (\S+) (.*?) at (\S+)', line)
         if m:
             pend.append((m.group(2), m.group(3)[:110], m.group(4)))
             continue
